@@ -76,6 +76,7 @@ C("_SetIteration.__init__", cls="_SetIteration",
   ensures={
       "cursor": cur("self"),
       "fresh_iterator": "fresh(self._iter)",
+      "sequences_exist": "allocated(it_seq(self._iter)) and allocated(it_vals(self._iter))",
       "over_operand": "it_seq(self._iter) is " + OP_KEYS + " and " + OP_VALS_LINK,
       "values_used": "self.useValues == (useValues and " + OP_HASV + ")",
       "positioned": "self.active == (len(" + OP_KEYS + ") > 0)",
@@ -210,6 +211,12 @@ INTER = "sinter(" + seen("i1") + ", " + seen("i2") + ")"
 FRONTIER = {
     "frontier12": "implies(i2.active, all_below(" + seen("i1") + ", i2.key))",
     "frontier21": "implies(i1.active, all_below(" + seen("i2") + ", i1.key))",
+    # what a cursor has consumed are keys of its sequence
+    "sub1": "subset(" + seen("i1") + ", " + allkeys("i1") + ")",
+    "sub2": "subset(" + seen("i2") + ", " + allkeys("i2") + ")",
+    # L2 instantiated at the cursor: what a cursor has not consumed yet is not below its current key
+    "rest1": "implies(i1.active, forall_key(lambda k: implies(mem(" + allkeys("i1") + ", k) and not mem(" + seen("i1") + ", k), i1.key <= k)))",
+    "rest2": "implies(i2.active, forall_key(lambda k: implies(mem(" + allkeys("i2") + ", k) and not mem(" + seen("i2") + ", k), i2.key <= k)))",
 }
 # redefine intersection with the frontier invariant (replaces the placeholder above)
 CONTRACTS[:] = [c for c in CONTRACTS if c.name != "intersection"]
